@@ -7,6 +7,8 @@ package ecs
 //@ pred obsShape(m *observerManager) :=
 //@      len(m.observers) == 256 && len(m.hasObservers) == 256 && len(m.allComps) == 256 && len(m.allWith) == 256
 //@   && len(m.anyNoComps) == 256 && len(m.anyNoWith) == 256 && m.indices != nil
+//@   && __disjoint(m.hasObservers, m.anyNoComps) && __disjoint(m.hasObservers, m.anyNoWith) && __disjoint(m.anyNoComps, m.anyNoWith)
+//@   && __disjoint(m.allComps, m.allWith)
 
 // The part of I-obs that Reset relies on: no observers above maxEventType, none at all when the
 // id index is empty, stored observer pointers are not nil.
